@@ -84,7 +84,7 @@ Definition mnext_time (m : mrun) : option Z :=
   opt_min tl (opt_min t1 t2).
 
 Definition mset_now (m : mrun) (t : Z) : mrun :=
-  mkMRun t (map (fun r => with_l r (set_now (r_l r) t)) (m_links m)) (m_chain m) (m_ops m) (m_starts m).
+  mkMRun t (map (fun r => with_l r (set_now (r_l r) (Z.max t (l_now (r_l r))))) (m_links m)) (m_chain m) (m_ops m) (m_starts m).
 
 Fixpoint mrun_quiet (fuel : nat) (horizon : Z) (m : mrun) : option mrun :=
   match fuel with
